@@ -26,7 +26,7 @@ def bounded_checks(tier, seed, repo):
 
 
 scenario('C11', 'dmrg.no_raise_shape_frame', ['torchtt._dmrg.dmrg_matvec_python', 'torchtt._dmrg.dmrg_hadamard_python', 'torchtt._tt_base.TT.fast_matvec'],
-         quick=[g for g in _c06.grid_dmrg() if g['nswp'] == 1], thorough=_c06.grid_dmrg() + [dict(which='fast_matvec', d=3, nswp=1, guess=True)],
+         quick=_c06.grid_dmrg(), thorough=_c06.grid_dmrg() + [dict(which=w, d=3, nswp=1, guess=g) for w in ('fast_matvec', 'dmrg_hadamard') for g in (True, False)],
          replay='dmrg_frame', max_paths=4000)(_c06.dmrg_frame)
 
 
